@@ -1,24 +1,31 @@
-"""MAG - magnitude classes of non-negative binary64 values, for "saturates instead of turning into NaN" rules.
+"""MAG - sign and magnitude classes of binary64 values, for "saturates instead of turning into NaN" rules.
 
-Abstract values:  Z exact zero | INF +infinity | NAN | ('m', lo, hi) a finite positive value in [2**lo, 2**(hi+1)] | TOP anything.
+Abstract values:  Z exact zero | ('inf', s) | NAN | ('m', s, lo, hi) a finite value of sign s and magnitude in
+[2**lo, 2**(hi+1)] | TOP anything.
 The transfer functions are interval arithmetic on binary exponents followed by the IEEE overflow / underflow thresholds:
-a real result that is at least 2**1024 rounds to +inf, one that is at most 2**-1075 rounds to 0; an interval that straddles a
-threshold is TOP.  0*inf, 0/0 and inf/inf are NAN.  Every concrete input of a class is covered (rounding is monotone and the
-end points are powers of two), so a NAN / INF result is definite for the whole class: a report names the class, nothing is run."""
+a real result of magnitude at least 2**1024 rounds to an infinity, one of at most 2**-1075 rounds to 0; an interval that
+straddles a threshold is TOP.  0*inf, 0/0, inf/inf and inf-inf are NAN.  A difference of two values of the same sign is decided
+only when their magnitudes are separated by a binade.  exp and pow are taken as monotone functions that are exact at the
+level of binades (they are within an ulp in every libm).  Every concrete input of a class is covered (rounding is monotone and
+the end points are powers of two), so a NAN / infinite result is definite for the whole class: a report names the class,
+nothing is run."""
 import math
 
-Z, INF, NAN, TOP = ('z',), ('inf',), ('nan',), ('top',)
+Z, NAN, TOP = ('z',), ('nan',), ('top',)
+PINF, NINF = ('inf', 1), ('inf', -1)
+INF = PINF
 EMAX, EZERO = 1024, -1075
+LOG2E = 1.4426950408889634
 
 
-def m(lo, hi):
+def m(lo, hi, s=1):
     if lo >= EMAX:
-        return INF
+        return ('inf', s)
     if hi + 1 <= EZERO:
         return Z
     if hi >= EMAX or lo < EZERO:
         return TOP
-    return ('m', lo, hi)
+    return ('m', s, lo, hi)
 
 
 def const(c):
@@ -26,80 +33,146 @@ def const(c):
         return NAN
     if c == 0:
         return Z
-    if c < 0:
-        return TOP
-    if c == float('inf'):
-        return INF
-    e = math.frexp(c)[1] - 1
-    return m(e, e)
+    s = 1 if c > 0 else -1
+    if abs(c) == float('inf'):
+        return ('inf', s)
+    e = math.frexp(abs(c))[1] - 1
+    return m(e, e, s)
 
 
-def binade(e):
-    return ('m', e, e)
+def binade(e, s=1):
+    return ('m', s, e, e)
+
+
+def sign(x):
+    return x[1] if x[0] in ('inf', 'm') else 0
+
+
+def neg(x):
+    if x[0] == 'inf':
+        return ('inf', -x[1])
+    if x[0] == 'm':
+        return ('m', -x[1], x[2], x[3])
+    return x
+
+
+def fabs(x):
+    return neg(x) if sign(x) < 0 else x
 
 
 def mul(x, y):
     if NAN in (x, y):
         return NAN
-    if {x, y} == {Z, INF}:
+    if (x == Z and y[0] == 'inf') or (y == Z and x[0] == 'inf'):
         return NAN
     if TOP in (x, y):
         return TOP
     if Z in (x, y):
         return Z
-    if INF in (x, y):
-        return INF
-    return m(x[1] + y[1], x[2] + y[2] + 1)
+    s = sign(x) * sign(y)
+    if 'inf' in (x[0], y[0]):
+        return ('inf', s)
+    return m(x[2] + y[2], x[3] + y[3] + 1, s)
 
 
 def div(x, y):
     if NAN in (x, y):
         return NAN
-    if (x, y) in ((Z, Z), (INF, INF)):
+    if (x == Z and y == Z) or (x[0] == 'inf' and y[0] == 'inf'):
         return NAN
     if TOP in (x, y):
         return TOP
-    if x == Z or y == INF:
+    if y == Z:
+        return TOP      # the sign of the zero decides the sign of the infinity
+    if x == Z or y[0] == 'inf':
         return Z
-    if y == Z or x == INF:
-        return INF
-    return m(x[1] - y[2] - 1, x[2] - y[1])
+    s = sign(x) * sign(y)
+    if x[0] == 'inf':
+        return ('inf', s)
+    return m(x[2] - y[3] - 1, x[3] - y[2], s)
 
 
 def add(x, y):
     if NAN in (x, y):
         return NAN
+    if x[0] == 'inf' and y[0] == 'inf':
+        return x if x[1] == y[1] else NAN
     if TOP in (x, y):
         return TOP
-    if INF in (x, y):
-        return INF
+    if x[0] == 'inf':
+        return x
+    if y[0] == 'inf':
+        return y
     if x == Z:
         return y
     if y == Z:
         return x
-    return m(max(x[1], y[1]), max(x[2], y[2]) + 1)
+    if x[1] == y[1]:
+        return m(max(x[2], y[2]), max(x[3], y[3]) + 1, x[1])
+    big, small = (x, y) if x[2] >= y[2] else (y, x)
+    if big[2] >= small[3] + 2:
+        return m(big[2] - 1, big[3], big[1])
+    return TOP      # cancellation: sign and magnitude open
 
 
 def sub(x, y):
-    if NAN in (x, y):
-        return NAN
-    if x == INF and y == INF:
-        return NAN
-    if TOP in (x, y):
-        return TOP
-    if y == Z:
+    return add(x, neg(y))
+
+
+def exp(x):
+    if x in (NAN, TOP):
         return x
-    if x == INF:
-        return INF
-    return TOP      # the sign is open: outside the domain of non-negative values
+    if x == Z:
+        return m(0, 0)
+    if x[0] == 'inf':
+        return PINF if x[1] > 0 else Z
+    s, lo, hi = x[1], x[2], x[3]
+    if hi + 1 <= -54:
+        return m(-1, 0)               # 1 - 2**-54 .. 1 + 2**-54: rounds to 1 or a neighbour
+    if lo >= 11:
+        return PINF if s > 0 else Z   # |t| >= 2048 > 745.2
+    if hi >= 12:
+        return TOP
+    a, b = (2.0 ** lo) * LOG2E, (2.0 ** (hi + 1)) * LOG2E
+    if s > 0:
+        return m(int(math.floor(a)), int(math.ceil(b)) - 1)
+    return m(int(math.floor(-b)), int(math.ceil(-a)) - 1)
+
+
+def pow_(x, p):
+    """pow(x, p) for a positive exponent class p; a negative base only with the exponent 2"""
+    if NAN in (x, p):
+        return NAN
+    if TOP in (x, p):
+        return TOP
+    if p == ('m', 1, 1, 1):
+        pass
+    if sign(p) <= 0 or p[0] != 'm':
+        return TOP
+    if sign(x) < 0:
+        return TOP
+    if x == Z:
+        return Z
+    if x[0] == 'inf':
+        return PINF
+    plo, phi = 2.0 ** p[2], 2.0 ** (p[3] + 1)
+    corners = [a * b for a in (x[2], x[3] + 1) for b in (plo, phi)]
+    L, H = min(corners), max(corners)
+    if abs(L) > 1e6 or abs(H) > 1e6:
+        if L >= EMAX:
+            return PINF
+        if H <= EZERO:
+            return Z
+        return TOP
+    return m(int(math.floor(L)), int(math.ceil(H)) - 1)
 
 
 OPS = {'fmul': mul, 'fdiv': div, 'fadd': add, 'fsub': sub}
 
 
-def run(fn, args):
+def run(fn, args, lookup=None, depth=0):
     """straight-line function over doubles -> abstract return value, or None when it is not straight-line arithmetic"""
-    if len(fn.blocks) != 1:
+    if len(fn.blocks) != 1 or depth > 3:
         return None
     env = dict(zip([p[1] for p in fn.params], args))
 
@@ -112,18 +185,53 @@ def run(fn, args):
     for i in fn.blocks[0].instrs:
         if i.op in OPS:
             env[i.res] = OPS[i.op](val(i.ops[0]), val(i.ops[1]))
+        elif i.op == 'fneg':
+            env[i.res] = neg(val(i.ops[0]))
         elif i.op == 'ret':
             return val(i.ops[0]) if i.ops else None
         elif i.op in ('fpext', 'fptrunc'):
             return None
-        elif i.res is not None:
-            if i.op == 'call' and str(i.x.get('callee', '')).startswith('llvm.dbg'):
+        elif i.op == 'call':
+            callee = str(i.x.get('callee', '')).lstrip('@')
+            if callee.startswith('llvm.dbg'):
                 continue
+            a = [val(o) for o in i.ops]
+            if callee in ('exp', 'expf') and len(a) == 1:
+                env[i.res] = exp(a[0])
+            elif callee.startswith('llvm.fabs') or callee in ('fabs', 'fabsf'):
+                env[i.res] = fabs(a[0])
+            elif callee in ('pow', 'powf') and len(a) == 2:
+                o = i.ops[1]
+                if o.k == 'fp' and o.v == 2.0:
+                    env[i.res] = mul(fabs(a[0]), fabs(a[0]))
+                else:
+                    env[i.res] = pow_(a[0], a[1])
+            else:
+                g = lookup(callee) if lookup else None
+                r = run(g, a, lookup, depth + 1) if g is not None and not getattr(g, 'error', None) and g.blocks else None
+                if r is None:
+                    if i.res is None:
+                        return None
+                    env[i.res] = TOP
+                else:
+                    env[i.res] = r
+        elif i.res is not None:
             env[i.res] = TOP
     return None
 
 
+def out_of_unit_interval(r):
+    """definitely not a value of [0,1]"""
+    return r == NAN or r[0] == 'inf' or (r[0] == 'm' and (r[1] < 0 or r[2] >= 1))
+
+
 def show(v):
     if v[0] == 'm':
-        return '[2^%d, 2^%d]' % (v[1], v[2] + 1)
-    return {'z': '0', 'inf': '+inf', 'nan': 'NaN', 'top': 'undecided'}[v[0]]
+        return '%s[2^%d, 2^%d]' % ('-' if v[1] < 0 else '', v[2], v[3] + 1)
+    if v[0] == 'inf':
+        return '+inf' if v[1] > 0 else '-inf'
+    return {'z': '0', 'nan': 'NaN', 'top': 'undecided'}[v[0]]
+
+
+def show_class(name, v):
+    return '%s in %s' % (name, show(v))
